@@ -38,14 +38,15 @@ type c06Pkt struct {
 }
 
 type c06Scenario struct {
-	Mode     string   `json:"mode,omitempty"` // "" = in flight, "exit", "alloc"
-	Stream   []byte   `json:"stream,omitempty"`
-	BodyLen  int      `json:"body_len,omitempty"`
-	Inflight bool     `json:"inflight"`
-	Handler  bool     `json:"handler"`
-	Reqs     []c06Req `json:"reqs"`
-	Burst    []c06Pkt `json:"burst"`
-	Label    string   `json:"label"`
+	Mode     string    `json:"mode,omitempty"` // "" = in flight, "exit", "alloc"
+	Stream   []byte    `json:"stream,omitempty"`
+	BodyLen  int       `json:"body_len,omitempty"`
+	Ops      []c06RsOp `json:"ops,omitempty"`
+	Inflight bool      `json:"inflight"`
+	Handler  bool      `json:"handler"`
+	Reqs     []c06Req  `json:"reqs"`
+	Burst    []c06Pkt  `json:"burst"`
+	Label    string    `json:"label"`
 }
 
 type c06InflightObs struct {
